@@ -6,24 +6,58 @@
  *   run <repaired> <nworkers> <rcspec> <choice>*
  *
  * (<repaired> is for the model only and ignored here.)  Prints, like the model driver, the snapshot
- * after every step joined by " | ", then " || sub=… cb=… ret=…" with the history the harness observed
- * itself (data of successful submits, callback invocations worker:data, data handed back by dequeue),
- * and " err=…" if one of its own assertions failed:
- *   mutex-held      a mutex was owned at a scheduling point
- *   ctx             a callback ran with a context other than its worker's own, or on a busy context
- *   tid             worker callback on an unexpected thread
+ * after every step joined by " | ", then " || sub=… cb=… ret=… ev=…" with the history the harness observed
+ * itself (data of successful submits, callback invocations worker:data, data handed back by dequeue, the
+ * event log P<i>:<ptr> set_worker_ptr call / E<w>:<ptr>:<d> callback entry with the context pointer the
+ * callback really received / L<w> callback exit / O<d> submit failed in calloc), and " err=…" if one of its own
+ * assertions failed:
+ *   mutex-held      a mutex was owned at a (coarse) scheduling point
+ *   tid             worker callback on an unexpected thread / context pointer outside the harness's array
+ * Choices: s<d> q g x (API calls), p<i>:<ptr> set_worker_ptr(i, ptr) (ptr 0 = NULL, c+1 = &ctxs[c]),
+ * o<d> submit(d) with calloc failing (if it is called), m/M, w<i>/W<i>.
+ *
+ *   fine <repaired> <nworkers> <rcspec> <seed> <pspur%> <op>*
+ *   finev …   the same, additionally printing the fine schedule taken (`ftrace=`) and a snapshot after EVERY fine step
+ *             (`fsnaps=`) in the vocabulary of `sqfsmodel c09 frun` (Model/C09PoolFine.lean): thread phases `L:<pc>` (holds
+ *             the mutex, acquired from <pc>), `U:…` (has unlocked; main: the pending tail with the value it carries,
+ *             worker: the item it left with), the lazily updated fields as they are in the real struct, `mf=` mutex free
+ *
+ * Fine mode of the scheduler (shim_sched.h: additional scheduling points right after every lock acquisition and
+ * right after every unlock): a seeded random schedule of the API script <op>* at that granularity.  Every
+ * coarse step of the model is then three segments, (a) lock granted, (b) critical section up to the unlock or
+ * the cond wait, (c) lock-free tail up to the next blocking point, and segments of different threads interleave
+ * (only lock-free code can run while another thread is inside (a)..(b)).  The harness prints the *derived coarse
+ * schedule* — each model step placed where its segment (b) ran (lock-free steps: where they ran) —, the API
+ * return values, a snapshot whenever every thread is at a coarse blocking point (`@k:` = after k derived
+ * choices) and the final snapshot after all pending tails were completed.  If the lock-free tails touch only
+ * thread-private state (the assumption behind the model's granularity), the model run on the derived schedule
+ * must reproduce all of it; a write that was moved out of the critical section shows up as a difference or as a
+ * dead-lock (`dl=1`).
  * Compile with -include shim_sched.h (vlib ctx.cc flags) and link sched.c.
  */
 #include "config.h"
-#include "lib/util/src/threadpool.c"
-
+#include <stdlib.h>
 #include <stdio.h>
+
+/* calloc of threadpool.c (the work item allocation in submit) goes through a hook so that it can fail */
+static int g_fail_calloc;
+static void *h_calloc(size_t n, size_t sz)
+{
+	if (g_fail_calloc) {
+		g_fail_calloc = 0;
+		return NULL;
+	}
+	return calloc(n, sz);
+}
+#define calloc h_calloc
+#include "lib/util/src/threadpool.c"
+#undef calloc
 
 #define MAXW 16
 #define MAXITEM 4096
 #define MAXLOG 4096
 
-enum { OP_NONE, OP_SUBMIT, OP_DEQUEUE, OP_STATUS, OP_DESTROY };
+enum { OP_NONE, OP_SUBMIT, OP_DEQUEUE, OP_STATUS, OP_DESTROY, OP_SETPTR, OP_SUBMIT_OOM };
 
 typedef struct { int busy; int idx; } wctx_t;
 
@@ -33,36 +67,66 @@ static int rc_tbl[MAXITEM];
 static unsigned int vals[MAXITEM];          /* work items: data = index into vals */
 static wctx_t ctxs[MAXW];
 static int cur_data[MAXW];                  /* item the worker's callback is running on */
+static int cur_ctx[MAXW];                   /* context pointer it received (0 NULL, c+1 = &ctxs[c], -1 foreign) */
 static struct { int valid, d, rc; } fin[MAXW];
-static int pend_op, pend_arg, cur_op, cur_arg;
 static char last_ret[64];
+static int pend_op, pend_arg, pend_arg2, cur_op, cur_arg, cur_arg2;
+static struct { char k; int a, b, c; } evlog[MAXLOG];
+static int n_ev;
+static char retlog[1 << 16];
+static size_t retlog_len;
+
+static void ev(char k, int a, int b, int c)
+{
+	if (n_ev < MAXLOG) {
+		evlog[n_ev].k = k; evlog[n_ev].a = a; evlog[n_ev].b = b; evlog[n_ev].c = c;
+		++n_ev;
+	}
+}
+
+static void api_returned(void)
+{
+	size_t n = strlen(last_ret);
+	if (retlog_len + n + 2 < sizeof(retlog)) {
+		if (retlog_len)
+			retlog[retlog_len++] = ',';
+		memcpy(retlog + retlog_len, last_ret, n + 1);
+		retlog_len += n;
+	}
+}
+
+static int ptr_code(const void *p)
+{
+	const wctx_t *c = p;
+	if (c == NULL)
+		return 0;
+	if (c < ctxs || c >= ctxs + MAXW)
+		return -1;
+	return (int)(c - ctxs) + 1;
+}
 static int main_setup_done, destroyed;
 static int errflags;                        /* 1 mutex-held, 2 ctx, 4 tid */
 static int log_sub[MAXLOG], n_sub, log_cbw[MAXLOG], log_cbd[MAXLOG], n_cb, log_ret[MAXLOG], n_ret;
 
 static int cb(void *user, void *item)
 {
-	wctx_t *c = user;
 	int d = (int)((unsigned int *)item - vals);
 	int w = vs_self() - 1;
-	if (w < 0 || w >= g_n)
+	int pc = ptr_code(user);
+	if (w < 0 || w >= g_n || pc < 0)
 		errflags |= 4;
-	else if (c != &ctxs[w])
-		errflags |= 2;
-	if (c == NULL || c->busy)
-		errflags |= 2;
-	else
-		c->busy = 1;
-	if (w >= 0 && w < MAXW)
+	if (w >= 0 && w < MAXW) {
 		cur_data[w] = d;
-	vs_yield("cb");                          /* blocking point: callback entry (`working it`) */
+		cur_ctx[w] = pc;
+	}
+	ev('E', w, pc, d);
+	vs_yield("cb");                          /* blocking point: inside the callback (`working it`) */
 	if (n_cb < MAXLOG) {
 		log_cbw[n_cb] = w;
 		log_cbd[n_cb++] = d;
 	}
+	ev('L', w, 0, 0);
 	vals[d] = 42;
-	if (c)
-		c->busy = 0;
 	if (w >= 0 && w < MAXW) {
 		fin[w].valid = 1;
 		fin[w].d = d;
@@ -84,19 +148,32 @@ static void *main_thread(void *arg)
 	g_pool = (thread_pool_impl_t *)p;
 	if ((int)p->get_worker_count(p) != g_n)
 		errflags |= 4;
-	for (i = 0; i < g_n; ++i)
+	for (i = 0; i < g_n; ++i) {
+		ev('P', i, i + 1, 0);
 		p->set_worker_ptr(p, (size_t)i, &ctxs[i]);
+	}
 	main_setup_done = 1;
 	for (;;) {
 		vs_yield("idle");                /* between two API calls */
 		cur_op = pend_op;
 		cur_arg = pend_arg;
+		cur_arg2 = pend_arg2;
 		pend_op = OP_NONE;
-		if (cur_op == OP_SUBMIT) {
-			int rc = p->submit(p, &vals[cur_arg]);
+		if (cur_op == OP_SUBMIT || cur_op == OP_SUBMIT_OOM) {
+			int rc;
+			g_fail_calloc = cur_op == OP_SUBMIT_OOM;
+			rc = p->submit(p, &vals[cur_arg]);
+			if (cur_op == OP_SUBMIT_OOM && !g_fail_calloc)
+				ev('O', cur_arg, 0, 0);          /* the hook was consumed: calloc was called and failed */
+			g_fail_calloc = 0;
 			if (rc == 0 && n_sub < MAXLOG)
 				log_sub[n_sub++] = cur_arg;
 			snprintf(last_ret, sizeof(last_ret), "sub:%d", rc);
+		} else if (cur_op == OP_SETPTR) {
+			if (cur_arg < g_n)
+				ev('P', cur_arg, cur_arg2, 0);
+			p->set_worker_ptr(p, (size_t)cur_arg, cur_arg2 == 0 ? NULL : (void *)&ctxs[cur_arg2 - 1]);
+			snprintf(last_ret, sizeof(last_ret), "set");
 		} else if (cur_op == OP_DEQUEUE) {
 			unsigned int *r = p->dequeue(p);
 			if (r == NULL) {
@@ -113,8 +190,11 @@ static void *main_thread(void *arg)
 			destroyed = 1;
 			g_pool = NULL;
 			snprintf(last_ret, sizeof(last_ret), "destroyed");
+			api_returned();
 			break;
 		}
+		if (cur_op != OP_NONE)
+			api_returned();
 		cur_op = OP_NONE;
 	}
 	return NULL;
@@ -153,7 +233,7 @@ static void put_workers(FILE *f)
 			if (g_pool && vs_obj(t) != &g_pool->queue_cond)
 				fputs("?cond", f);
 			break;
-		case VS_YIELD: fprintf(f, "work:%d", cur_data[i]); break;
+		case VS_YIELD: fprintf(f, "work:%d@%d", cur_data[i], cur_ctx[i]); break;
 		case VS_EXITED: fputs("exit", f); break;
 		default: fputs("?", f);
 		}
@@ -167,7 +247,8 @@ static void put_main(FILE *f)
 	switch (vs_kind(0)) {
 	case VS_YIELD: fputs("idle", f); break;
 	case VS_LOCK:
-		if (cur_op == OP_SUBMIT) fprintf(f, "submitLock:%d", cur_arg);
+		if (cur_op == OP_SUBMIT || cur_op == OP_SUBMIT_OOM) fprintf(f, "submitLock:%d", cur_arg);
+		else if (cur_op == OP_SETPTR) fprintf(f, "setPtrLock:%d:%d", cur_arg, cur_arg2);
 		else if (cur_op == OP_DEQUEUE) fputs("deqLock", f);
 		else if (cur_op == OP_STATUS) fputs("statusLock", f);
 		else if (cur_op == OP_DESTROY) fputs("destroyLock", f);
@@ -193,7 +274,7 @@ static int main_in_call(void)
 static void snapshot(FILE *f, int with_ret)
 {
 	int i, first = 1, any = 0;
-	if (vs_mutexes_held() != 0)
+	if (vs_mutexes_held_coarse() != 0)
 		errflags |= 1;
 	if (destroyed) {
 		fputs("destroyed m=", f);
@@ -211,8 +292,11 @@ static void snapshot(FILE *f, int with_ret)
 		int n = 0;
 		for (r = g_pool->recycle; r != NULL && n < 100000; r = r->next)
 			++n;
-		fprintf(f, " nt=%zu nd=%zu ic=%zu st=%d rec=%d m=", g_pool->next_ticket, g_pool->next_dequeue_ticket,
+		fprintf(f, " nt=%zu nd=%zu ic=%zu st=%d rec=%d U=", g_pool->next_ticket, g_pool->next_dequeue_ticket,
 			g_pool->item_count, g_pool->status, n);
+		for (i = 0; i < g_n; ++i)
+			fprintf(f, "%s%d", i ? "," : "", ptr_code(g_pool->workers[i].user));
+		fputs(" m=", f);
 	}
 	put_main(f);
 	fputs(" w=", f);
@@ -290,45 +374,107 @@ static int is_num(const char *s)
 	return 1;
 }
 
-static void run_line(char *line)
+static void put_history(FILE *f)
 {
-	char *save = NULL, *tok;
-	char *cmd = strtok_r(line, " \n", &save);
-	char *rep = strtok_r(NULL, " \n", &save), *ns = strtok_r(NULL, " \n", &save), *rcs = strtok_r(NULL, " \n", &save);
-	int i, guard;
-	if (!cmd || strcmp(cmd, "run") != 0 || !rep || !ns || !rcs || !is_num(ns) || atoi(ns) < 1 || atoi(ns) > MAXW ||
-	    parse_rcspec(rcs) != 0) {
-		puts("bad-op");
-		return;
+	int i;
+	fputs(" ||", f);
+	put_list(f, "sub", log_sub, NULL, n_sub);
+	put_list(f, "cb", log_cbw, log_cbd, n_cb);
+	put_list(f, "ret", log_ret, NULL, n_ret);
+	fputs(" ev=", f);
+	if (n_ev == 0)
+		fputc('-', f);
+	for (i = 0; i < n_ev; ++i) {
+		if (i)
+			fputc(',', f);
+		switch (evlog[i].k) {
+		case 'P': fprintf(f, "P%d:%d", evlog[i].a, evlog[i].b); break;
+		case 'E': fprintf(f, "E%d:%d:%d", evlog[i].a, evlog[i].b, evlog[i].c); break;
+		case 'L': fprintf(f, "L%d", evlog[i].a); break;
+		default: fprintf(f, "O%d", evlog[i].a);
+		}
 	}
+	if (errflags)
+		fprintf(f, " err=%s%s", errflags & 1 ? "mutex-held," : "", errflags & 4 ? "tid," : "");
+}
+
+/* common set-up of `run` and `fine`: create the pool, set the worker pointers, bring every worker to its first
+   pthread_mutex_lock (nothing shared is touched on the way); not part of the script */
+static int setup(const char *ns, char *rcs)
+{
+	int i, guard;
+	if (!ns || !rcs || !is_num(ns) || atoi(ns) < 1 || atoi(ns) > MAXW || parse_rcspec(rcs) != 0)
+		return -1;
 	g_n = atoi(ns);
 	g_pool = NULL;
 	memset(ctxs, 0, sizeof(ctxs));
 	memset(fin, 0, sizeof(fin));
 	memset(vals, 0, sizeof(vals));
+	memset(cur_ctx, 0, sizeof(cur_ctx));
 	pend_op = cur_op = OP_NONE;
 	last_ret[0] = 0;
+	retlog[0] = 0;
+	retlog_len = 0;
 	main_setup_done = destroyed = errflags = 0;
-	n_sub = n_cb = n_ret = 0;
+	n_sub = n_cb = n_ret = n_ev = 0;
+	g_fail_calloc = 0;
 	vs_reset();
 	vs_spawn(main_thread, NULL);
-	/* set-up, not part of the script: create the pool, set the worker pointers, bring every worker
-	   to its first pthread_mutex_lock (nothing shared is touched on the way) */
 	for (guard = 0; !(main_setup_done && vs_kind(0) == VS_YIELD) && guard < 1000; ++guard)
 		if (vs_step(0, 0) != 0)
 			break;
 	for (i = 0; i < g_n; ++i)
 		if (vs_kind(i + 1) == VS_START)
 			vs_step(i + 1, 0);
+	return 0;
+}
+
+/* parse an API-call token into pend_op/pend_arg/pend_arg2; 0 if it is not one */
+static int parse_call(const char *tok)
+{
+	if (tok[0] == 's' && is_num(tok + 1) && atoi(tok + 1) < MAXITEM) {
+		pend_op = OP_SUBMIT; pend_arg = atoi(tok + 1);
+		return 1;
+	}
+	if (tok[0] == 'o' && is_num(tok + 1) && atoi(tok + 1) < MAXITEM) {
+		pend_op = OP_SUBMIT_OOM; pend_arg = atoi(tok + 1);
+		return 1;
+	}
+	if (tok[0] == 'p') {
+		char *e;
+		long i = strtol(tok + 1, &e, 10), q;
+		if (e == tok + 1 || *e != ':' || i < 0 || i > 1000000)
+			return 0;
+		if (!is_num(e + 1))
+			return 0;
+		q = atol(e + 1);
+		if (q > MAXW)
+			return 0;
+		pend_op = OP_SETPTR; pend_arg = (int)i; pend_arg2 = (int)q;
+		return 1;
+	}
+	if (strcmp(tok, "q") == 0 || strcmp(tok, "g") == 0 || strcmp(tok, "x") == 0) {
+		pend_op = tok[0] == 'q' ? OP_DEQUEUE : tok[0] == 'g' ? OP_STATUS : OP_DESTROY;
+		return 1;
+	}
+	return 0;
+}
+
+static void run_line(char *line)
+{
+	char *save = NULL, *tok;
+	char *cmd = strtok_r(line, " \n", &save);
+	char *rep = strtok_r(NULL, " \n", &save), *ns = strtok_r(NULL, " \n", &save), *rcs = strtok_r(NULL, " \n", &save);
+	if (!cmd || strcmp(cmd, "run") != 0 || !rep || setup(ns, rcs) != 0) {
+		puts("bad-op");
+		return;
+	}
 	snapshot(stdout, 0);
 	while ((tok = strtok_r(NULL, " \n", &save)) != NULL) {
 		int ok = 0, tid = -1, spur = 0;
 		last_ret[0] = 0;
-		if (tok[0] == 's' && is_num(tok + 1) && atoi(tok + 1) < MAXITEM) {
-			pend_op = OP_SUBMIT; pend_arg = atoi(tok + 1); tid = 0;
-			ok = vs_kind(0) == VS_YIELD;
-		} else if (strcmp(tok, "q") == 0 || strcmp(tok, "g") == 0 || strcmp(tok, "x") == 0) {
-			pend_op = tok[0] == 'q' ? OP_DEQUEUE : tok[0] == 'g' ? OP_STATUS : OP_DESTROY; tid = 0;
+		if (parse_call(tok)) {
+			tid = 0;
 			ok = vs_kind(0) == VS_YIELD;
 		} else if (strcmp(tok, "m") == 0) {
 			tid = 0;
@@ -360,12 +506,306 @@ static void run_line(char *line)
 		fputs(" | ", stdout);
 		snapshot(stdout, 1);
 	}
-	fputs(" ||", stdout);
-	put_list(stdout, "sub", log_sub, NULL, n_sub);
-	put_list(stdout, "cb", log_cbw, log_cbd, n_cb);
-	put_list(stdout, "ret", log_ret, NULL, n_ret);
-	if (errflags)
-		printf(" err=%s%s%s", errflags & 1 ? "mutex-held," : "", errflags & 2 ? "ctx," : "", errflags & 4 ? "tid," : "");
+	put_history(stdout);
+	putchar('\n');
+	vs_kill_all();
+}
+
+/* ---------------------------------------------------------------- fine mode */
+#define MAXOPS 512
+static char derived[1 << 16];
+static size_t derived_len;
+static int n_derived;
+
+static void emit(const char *fmt, int arg)
+{
+	char buf[64];
+	size_t n;
+	snprintf(buf, sizeof(buf), fmt, arg);
+	n = strlen(buf);
+	if (derived_len + n + 2 < sizeof(derived)) {
+		if (derived_len)
+			derived[derived_len++] = ' ';
+		memcpy(derived + derived_len, buf, n + 1);
+		derived_len += n;
+	}
+	++n_derived;
+}
+
+static int is_idle(int tid)
+{
+	const char *t = vs_tag(tid);
+	return tid == 0 && vs_kind(0) == VS_YIELD && t != NULL && strcmp(t, "idle") == 0;
+}
+
+static int all_coarse(void)
+{
+	int t;
+	for (t = 0; t <= g_n; ++t)
+		if (vs_fine_point(t))
+			return 0;
+	return 1;
+}
+
+static int spur_pending[MAXW + 1];
+static char lk_from[MAXW + 1][40], tail_desc[MAXW + 1][40];
+static FILE *ftrace_f, *fsnaps_f;            /* non-NULL in verbose mode */
+
+static void fsnap_thread(FILE *f, int tid)
+{
+	int fp = vs_fine_point(tid), i = tid - 1;
+	if (fp == 1) {
+		fprintf(f, "L:%s", lk_from[tid]);
+		return;
+	}
+	if (fp == 2) {
+		fputs(tail_desc[tid], f);
+		return;
+	}
+	if (tid == 0) {
+		put_main(f);
+		return;
+	}
+	switch (vs_kind(tid)) {
+	case VS_START: fputs("created", f); break;
+	case VS_LOCK:
+		if (fin[i].valid)
+			fprintf(f, "fin:%d:%d", fin[i].d, fin[i].rc);
+		else
+			fputs("start", f);
+		break;
+	case VS_COND: fprintf(f, "waitQ%d", vs_signalled(tid)); break;
+	case VS_YIELD: fprintf(f, "work:%d", cur_data[i]); break;
+	case VS_EXITED: fputs("exit", f); break;
+	default: fputs("?", f);
+	}
+}
+
+/* snapshot in the vocabulary of the fine model */
+static void fsnapshot(FILE *f)
+{
+	int i;
+	if (destroyed) {
+		fputs("destroyed m=", f);
+		fsnap_thread(f, 0);
+		fputs(" w=", f);
+	} else {
+		work_item_t *r;
+		int n = 0;
+		fputs("Q=", f); put_items(f, g_pool->queue);
+		fputs(" D=", f); put_items(f, g_pool->done);
+		fputs(" S=", f); put_items(f, g_pool->safe_done);
+		for (r = g_pool->recycle; r != NULL && n < 100000; r = r->next)
+			++n;
+		fprintf(f, " nt=%zu nd=%zu ic=%zu st=%d rec=%d m=", g_pool->next_ticket, g_pool->next_dequeue_ticket,
+			g_pool->item_count, g_pool->status, n);
+		fsnap_thread(f, 0);
+		fputs(" w=", f);
+	}
+	for (i = 0; i < g_n; ++i) {
+		if (i)
+			fputc(',', f);
+		fsnap_thread(f, i + 1);
+	}
+	fprintf(f, " r=%s", last_ret[0] ? last_ret : "-");
+	if (!destroyed)
+		fprintf(f, " mf=%d", vs_mutexes_held() == 0);
+}
+
+/* one fine step of thread tid (must be enabled); emits the derived coarse choice if this segment carries one */
+static int fine_step(int tid, int spur, const char *optok)
+{
+	int kind = vs_kind(tid), fp = vs_fine_point(tid);
+	int peek = -1;
+	size_t nd_before = 0;
+	last_ret[0] = 0;
+	if (fp == 0 && (kind == VS_LOCK || kind == VS_COND)) {
+		/* (a): remember from which blocking point the mutex is acquired */
+		if (kind == VS_COND)
+			snprintf(lk_from[tid], sizeof(lk_from[tid]), tid == 0 ? "deqWait%d" : "waitQ%d", vs_signalled(tid));
+		else if (tid > 0 && fin[tid - 1].valid)
+			snprintf(lk_from[tid], sizeof(lk_from[tid]), "fin:%d:%d", fin[tid - 1].d, fin[tid - 1].rc);
+		else if (tid > 0)
+			snprintf(lk_from[tid], sizeof(lk_from[tid]), "start");
+		else if (cur_op == OP_SUBMIT || cur_op == OP_SUBMIT_OOM)
+			snprintf(lk_from[0], sizeof(lk_from[0]), "submitLock:%d", cur_arg);
+		else if (cur_op == OP_SETPTR)
+			snprintf(lk_from[0], sizeof(lk_from[0]), "setPtrLock:%d:%d", cur_arg, cur_arg2);
+		else
+			snprintf(lk_from[0], sizeof(lk_from[0]), "%s", cur_op == OP_DEQUEUE ? "deqLock" : cur_op == OP_STATUS ? "statusLock" : "destroyLock");
+	}
+	if (fp == 1 && g_pool != NULL) {
+		/* (b): what the critical section is about to take */
+		if (tid == 0) {
+			nd_before = g_pool->next_dequeue_ticket;
+			if (g_pool->done != NULL && g_pool->done->ticket_number == nd_before)
+				peek = (int)((unsigned int *)g_pool->done->data - vals);
+		} else {
+			fin[tid - 1].valid = 0;              /* the worker stores its item: no longer `finishing` */
+			if (g_pool->queue != NULL)
+				peek = (int)((unsigned int *)g_pool->queue->data - vals);
+		}
+	}
+	if (kind == VS_COND)
+		spur_pending[tid] = spur;
+	if (vs_step(tid, spur) != 0)
+		return -1;
+	if (ftrace_f != NULL) {
+		if (optok != NULL)
+			fprintf(ftrace_f, " %s", optok);
+		else if (tid == 0)
+			fputs(spur ? " M" : " m", ftrace_f);
+		else
+			fprintf(ftrace_f, spur ? " W%d" : " w%d", tid - 1);
+	}
+	if (fp == 1 && vs_fine_point(tid) == 2 && g_pool != NULL) {
+		/* the thread has unlocked: describe its pending tail */
+		if (tid > 0) {
+			if (g_pool->status != 0)
+				snprintf(tail_desc[tid], sizeof(tail_desc[tid]), "U:null");
+			else
+				snprintf(tail_desc[tid], sizeof(tail_desc[tid]), "U:%d", peek);
+		} else if (cur_op == OP_SUBMIT || cur_op == OP_SUBMIT_OOM) {
+			snprintf(tail_desc[0], sizeof(tail_desc[0]), "U:submit:%d", g_pool->status);
+		} else if (cur_op == OP_DEQUEUE) {
+			if (g_pool->next_dequeue_ticket != nd_before)
+				snprintf(tail_desc[0], sizeof(tail_desc[0]), "U:deq:%d", peek);
+			else
+				snprintf(tail_desc[0], sizeof(tail_desc[0]), "U:deq:null");
+		} else if (cur_op == OP_STATUS) {
+			snprintf(tail_desc[0], sizeof(tail_desc[0]), "U:status:%d", g_pool->status);
+		} else if (cur_op == OP_DESTROY) {
+			snprintf(tail_desc[0], sizeof(tail_desc[0]), "U:destroy");
+		} else {
+			snprintf(tail_desc[0], sizeof(tail_desc[0]), "U:setptr");
+		}
+	}
+	if (fp == 1) {                                  /* (b): the critical section ran */
+		if (tid == 0)
+			emit(spur_pending[0] ? "M" : "m", 0);
+		else
+			emit(spur_pending[tid] ? "W%d" : "w%d", tid - 1);
+		spur_pending[tid] = 0;
+	} else if (fp == 2 || kind == VS_LOCK || kind == VS_COND) {
+		/* (c) tail, (a) lock granted / woken: no model step of their own */
+	} else if (optok != NULL) {
+		emit(optok, 0);                             /* idle -> call (to its first blocking point or to the end) */
+	} else if (tid == 0) {
+		emit("m", 0);                               /* join */
+	} else {
+		emit("w%d", tid - 1);                       /* callback body */
+	}
+	if (vs_mutexes_held_coarse() != 0)
+		errflags |= 1;
+	if (fsnaps_f != NULL) {
+		fputs(" | ", fsnaps_f);
+		fsnapshot(fsnaps_f);
+	}
+	return 0;
+}
+
+static void run_fine(char *line)
+{
+	char *save = NULL, *tok, *ops[MAXOPS];
+	char *cmd = strtok_r(line, " \n", &save);
+	char *rep = strtok_r(NULL, " \n", &save), *ns = strtok_r(NULL, " \n", &save), *rcs = strtok_r(NULL, " \n", &save),
+	     *seed = strtok_r(NULL, " \n", &save), *ps = strtok_r(NULL, " \n", &save);
+	unsigned long long x;
+	int nops = 0, next = 0, dl = 0, steps = 0, last = -1, pspur, t;
+	int verbose = cmd != NULL && strcmp(cmd, "finev") == 0;
+	char *ftrace_buf = NULL, *fsnaps_buf = NULL;
+	size_t ftrace_len = 0, fsnaps_len = 0;
+	if (!rep || !seed || !ps || !is_num(seed) || !is_num(ps) || setup(ns, rcs) != 0) {
+		puts("bad-op");
+		return;
+	}
+	while ((tok = strtok_r(NULL, " \n", &save)) != NULL && nops < MAXOPS)
+		ops[nops++] = tok;
+	pspur = atoi(ps);
+	x = strtoull(seed, NULL, 10) * 2862933555777941757ULL + 3037000493ULL;
+	derived[0] = 0;
+	derived_len = 0;
+	n_derived = 0;
+	memset(spur_pending, 0, sizeof(spur_pending));
+	vs_set_fine(1);
+	ftrace_f = fsnaps_f = NULL;
+	if (verbose) {
+		ftrace_f = open_memstream(&ftrace_buf, &ftrace_len);
+		fsnaps_f = open_memstream(&fsnaps_buf, &fsnaps_len);
+		if (ftrace_f == NULL || fsnaps_f == NULL)
+			abort();
+		fsnapshot(fsnaps_f);
+	}
+	fputs("fine", stdout);
+	for (steps = 0; steps < 100000; ++steps) {
+		int cand[MAXW + 1], nc = 0, sp[MAXW + 1], nsp = 0, pick;
+		for (t = 0; t <= g_n; ++t) {
+			if (is_idle(t)) {
+				if (next < nops)
+					cand[nc++] = t;
+			} else if (vs_enabled(t)) {
+				cand[nc++] = t;
+			}
+			if (vs_kind(t) == VS_COND && !vs_signalled(t))
+				sp[nsp++] = t;
+		}
+		if (nc == 0) {
+			dl = main_in_call() || vs_fine_point(0) != 0;
+			break;
+		}
+		x = x * 6364136223846793005ULL + 1442695040888963407ULL;
+		if (nsp > 0 && (int)((x >> 33) % 100) < pspur) {
+			x = x * 6364136223846793005ULL + 1442695040888963407ULL;
+			pick = sp[(x >> 33) % (unsigned)nsp];
+			if (fine_step(pick, 1, NULL) == 0) {
+				last = pick;
+				continue;
+			}
+		}
+		x = x * 6364136223846793005ULL + 1442695040888963407ULL;
+		pick = -1;
+		if ((x >> 33) % 100 < 35)                  /* keep running the same thread */
+			for (t = 0; t < nc; ++t)
+				if (cand[t] == last)
+					pick = last;
+		if (pick < 0) {
+			x = x * 6364136223846793005ULL + 1442695040888963407ULL;
+			pick = cand[(x >> 33) % (unsigned)nc];
+		}
+		if (is_idle(pick)) {
+			if (!parse_call(ops[next])) {
+				fputs(" bad-op", stdout);
+				break;
+			}
+			fine_step(0, 0, ops[next]);
+			++next;
+		} else {
+			fine_step(pick, 0, NULL);
+		}
+		last = pick;
+		if (all_coarse() && !destroyed) {
+			printf(" @%d:", n_derived);
+			snapshot(stdout, 0);
+		}
+	}
+	/* complete the pending tails (and critical sections) so that the final state is a coarse one */
+	for (t = 0; t <= g_n; ++t) {
+		int guard = 0;
+		while (vs_fine_point(t) && guard++ < 8)
+			fine_step(t, 0, NULL);
+	}
+	printf(" @final%d:", n_derived);
+	snapshot(stdout, 0);
+	printf(" # dl=%d steps=%d derived=%s rets=%s", dl, steps, derived_len ? derived : "-", retlog_len ? retlog : "-");
+	put_history(stdout);
+	if (verbose) {
+		fclose(ftrace_f);
+		fclose(fsnaps_f);
+		printf(" ## ftrace=%s ## fsnaps=%s", ftrace_len ? ftrace_buf + 1 : "-", fsnaps_buf);
+		free(ftrace_buf);
+		free(fsnaps_buf);
+		ftrace_f = fsnaps_f = NULL;
+	}
 	putchar('\n');
 	vs_kill_all();
 }
@@ -386,13 +826,41 @@ static void *cfail_thread(void *arg)
 	return NULL;
 }
 
+/* reduced snapshot of the failure path of thread_pool_create (the pool pointer is not visible from outside): program
+   counters only, in the model's vocabulary — the path is `destroy` on a pool with the j workers created so far */
+static void cf_pcs(char *buf, size_t cap)
+{
+	size_t n = 0;
+	int i, nt = vs_nthreads();
+	switch (vs_kind(0)) {
+	case VS_LOCK: n += (size_t)snprintf(buf + n, cap - n, "m=destroyLock"); break;
+	case VS_JOIN: n += (size_t)snprintf(buf + n, cap - n, "m=join:%d", vs_join_target(0) - 1); break;
+	case VS_EXITED: n += (size_t)snprintf(buf + n, cap - n, "m=finished"); break;
+	default: n += (size_t)snprintf(buf + n, cap - n, "m=?");
+	}
+	n += (size_t)snprintf(buf + n, cap - n, " w=");
+	for (i = 1; i < nt && n + 16 < cap; ++i) {
+		switch (vs_kind(i)) {
+		case VS_START: case VS_LOCK: n += (size_t)snprintf(buf + n, cap - n, "%sstart", i > 1 ? "," : ""); break;
+		case VS_COND: n += (size_t)snprintf(buf + n, cap - n, "%swaitQ%d", i > 1 ? "," : "", vs_signalled(i)); break;
+		case VS_EXITED: n += (size_t)snprintf(buf + n, cap - n, "%sexit", i > 1 ? "," : ""); break;
+		default: n += (size_t)snprintf(buf + n, cap - n, "%s?", i > 1 ? "," : "");
+		}
+	}
+	if (nt <= 1)
+		snprintf(buf + n, cap - n, "-");
+}
+
 static void run_cfail(char *line)
 {
 	char *save = NULL;
 	char *cmd = strtok_r(line, " \n", &save), *a = strtok_r(NULL, " \n", &save), *b = strtok_r(NULL, " \n", &save),
 	     *c = strtok_r(NULL, " \n", &save);
+	static char trace[1 << 16];
+	size_t tl = 0;
+	char pcs[512];
 	unsigned long long x;
-	int dl = 0, alive = 0, i, mtx = 0;
+	int dl = 0, alive = 0, i, mtx = 0, with_spur, nspur = 0;
 	(void)cmd;
 	if (!a || !b || !c || !is_num(a) || !is_num(b) || !is_num(c) || atoi(a) < 1 || atoi(a) > MAXW) {
 		puts("bad-op");
@@ -403,10 +871,15 @@ static void run_cfail(char *line)
 	cf_null = -1;
 	g_n = cf_n;
 	x = strtoull(c, NULL, 10) * 2862933555777941757ULL + 3037000493ULL;
+	with_spur = strtoull(c, NULL, 10) % 4 == 1;
+	derived[0] = 0;
+	derived_len = 0;
+	n_derived = 0;
+	trace[0] = 0;
 	vs_reset();
 	vs_spawn(cfail_thread, NULL);
 	for (;;) {
-		int en[64], n = 0, nt = vs_nthreads(), live = 0;
+		int en[64], n = 0, nt = vs_nthreads(), live = 0, pick, kind, spur = 0;
 		for (i = 0; i < nt && i < 64; ++i) {
 			if (vs_kind(i) != VS_EXITED)
 				live = 1;
@@ -419,12 +892,43 @@ static void run_cfail(char *line)
 			dl = live;
 			break;
 		}
+		pick = -1;
 		x = x * 6364136223846793005ULL + 1442695040888963407ULL;
-		vs_step(en[(x >> 33) % (unsigned)n], 0);
+		if (with_spur && (x >> 33) % 100 < 15) {
+			int cand[64], m = 0;
+			for (i = 0; i < nt && i < 64; ++i)
+				if (vs_kind(i) == VS_COND && !vs_signalled(i))
+					cand[m++] = i;
+			x = x * 6364136223846793005ULL + 1442695040888963407ULL;
+			if (m > 0) {
+				pick = cand[(x >> 33) % (unsigned)m];
+				spur = 1;
+			}
+		}
+		if (pick < 0) {
+			x = x * 6364136223846793005ULL + 1442695040888963407ULL;
+			pick = en[(x >> 33) % (unsigned)n];
+		}
+		kind = vs_kind(pick);
+		if (vs_step(pick, spur) != 0)
+			continue;
+		nspur += spur;
+		/* derived schedule of the model run `run 1 <j> - …` (j = workers created): the main thread arriving at the
+		   lock of the failure path is the call `x`; a worker's way from creation to its first lock is no step */
+		if (pick == 0)
+			emit(kind == VS_START ? "x" : "m", 0);
+		else if (kind == VS_START)
+			continue;
+		else
+			emit(spur ? "W%d" : "w%d", pick - 1);
+		cf_pcs(pcs, sizeof(pcs));
+		if (tl + strlen(pcs) + 4 < sizeof(trace))
+			tl += (size_t)snprintf(trace + tl, sizeof(trace) - tl, "%s%s", tl ? " | " : "", pcs);
 	}
 	for (i = 0; i < vs_nthreads(); ++i)
 		alive += vs_kind(i) != VS_EXITED;
-	printf("null=%d dl=%d alive=%d threads=%d mtx=%d\n", cf_null, dl, alive, vs_nthreads(), mtx);
+	printf("null=%d dl=%d alive=%d threads=%d spur=%d mtx=%d || derived=%s pcs=%s\n", cf_null, dl, alive, vs_nthreads(), nspur, mtx,
+	       derived_len ? derived : "-", trace);
 	vs_kill_all();
 }
 
@@ -434,6 +938,8 @@ int main(void)
 	while (fgets(line, sizeof(line), stdin)) {
 		if (strncmp(line, "cfail ", 6) == 0)
 			run_cfail(line);
+		else if (strncmp(line, "fine ", 5) == 0 || strncmp(line, "finev ", 6) == 0)
+			run_fine(line);
 		else
 			run_line(line);
 	}
